@@ -77,7 +77,10 @@ class StepTap:
         tds, dae = self.tds, self.ss.dae
         rec = {'seq': self.seq(), 'k': self.hist['n_attempts'], 't': float(dae.t), 'h': float(tds.h),
                'x0': dae.x.copy(), 'y0': dae.y.copy(), 'f0': dae.f.copy(), 'iters': 0,
-               'mirror_err': 0.0, 'accept_err': None, 'last_inc': None, 'resumed': self.hist.get('segment', 0) > 0}
+               'mirror_err': 0.0, 'accept_err': None, 'last_inc': None, 'resumed': self.hist.get('segment', 0) > 0,
+               # mass-matrix diagonal in force for this attempt, rebuilt from the models' time-constant parameters
+               # (they may have been altered since the previous attempt: Model.alter between segments, timed Alter devices)
+               'tf': independent_tf(self.ss)}
         self.hist['n_attempts'] += 1
         self.cur = rec
         ok = self.orig()
@@ -158,8 +161,7 @@ class SolverTap:
     # -- the rule mirror: recompute the integration-rule residual from the simulator's own copies
     def _mirror(self, b, rec):
         tds, dae = self.ss.TDS, self.ss.dae
-        if self.tf_ind is None or len(self.tf_ind) != dae.n:
-            self.tf_ind = independent_tf(self.ss)
+        self.tf_ind = rec['tf'] if rec.get('tf') is not None and len(rec['tf']) == dae.n else independent_tf(self.ss)
         h = rec['h']
         name = tds.config.method
         if name == 'trapezoid':
